@@ -211,7 +211,10 @@ impl Scene for S {
                 // must: subscribed before, no interfering unsubscribe, subscriber alive throughout
                 let subscribed_before = my_subs.iter().any(|r| r.done && r.hi < piv.lo);
                 let unsubs_harmless = my_unsubs.iter().all(|u| u.lo > piv.hi || my_subs.iter().any(|r| r.done && r.lo > u.hi && r.hi < piv.lo));
-                if *pok && subscribed_before && unsubs_harmless && !terminated(s) && settled && got == 0 {
+                // (every subscriber terminates at the very end, when the clients let go of their
+                // handles at t=5; 'alive' here means: no program drops or stops it earlier)
+                let ended_early = self.programs.iter().flatten().any(|op| matches!(op, B::DropSub(x) | B::StopSub(x) if *x == s));
+                if *pok && subscribed_before && unsubs_harmless && !ended_early && settled && got == 0 {
                     v("delivered-to-subscribed", "C09/not-delivered".into(), format!("publication {id} (topic {topic}) was not delivered to subscriber {s} whose subscription had completed before the publish began"));
                 }
             }
